@@ -372,13 +372,36 @@ def check_c03(mt, sess):
     for s, u in model.units():
         for t in u.toks:
             toks[t.id] = t
-    for src, typ, cond, direct, tgt in expected_edges_skip_pads(model):
+    # instructions directly in front of a place where a block was deleted
+    # with retarget_to_proxy may fall through to that proxy (documented)
+    proxy_fall = set()
+    for sname in model.section_order:
+        last = None
+        armed_src = None
+        for u in model.sections[sname]:
+            for t in u.toks:
+                if t.is_bytes():
+                    if armed_src is not None:
+                        proxy_fall.add(armed_src)
+                    armed_src = None
+                    last = t
+                elif t.kind == "pmark" and last is not None:
+                    armed_src = last.id
+    entry_addrs = set()
+    fe = world.module.aux_data.get("functionEntries")
+    if fe is not None:
+        for bs in fe.data.values():
+            entry_addrs.update(b.address for b in bs if b.address is not None)
+    entry_toks = {tid for tid, ta in addr.items() if ta in entry_addrs and tid in toks and toks[tid].is_bytes()}
+    for src, typ, cond, direct, tgt in expected_edges_skip_pads(model, entry_toks):
         a = addr.get(src)
         if a is None:
             continue
         if tgt[0] == "tok":
             ta = addr.get(tgt[1])
             tk = ("addr", ta)
+            if typ == "Fallthrough" and src in proxy_fall:
+                tk = ("addr-or-proxy", ta)
         elif tgt[0] == "end":
             tk = ("addr-end", tgt[1])
         elif tgt[0] == "sym":
@@ -423,7 +446,7 @@ def check_c03(mt, sess):
             )
 
 
-def expected_edges_skip_pads(model):
+def expected_edges_skip_pads(model, entry_toks=None):
     """expected_edges with padding tokens made transparent"""
     pads = []
     for s, u in model.units():
@@ -433,13 +456,13 @@ def expected_edges_skip_pads(model):
                 pads.append((u, t))
             keep.append(t)
     if not pads:
-        return expect.expected_edges(model)
+        return expect.expected_edges(model, entry_toks)
     saved = {}
     for s, u in model.units():
         saved[id(u)] = u.toks
         u.toks = [t for t in u.toks if not (t.kind == "insn" and t.ikind == "pad") and not (t.kind == "data" and t.origin == "pad")]
     try:
-        return expect.expected_edges(model)
+        return expect.expected_edges(model, entry_toks)
     finally:
         for s, u in model.units():
             u.toks = saved[id(u)]
@@ -453,6 +476,8 @@ def _edge_diff(e, r, section_end):
     used = set()
     for x in sorted(e, key=str):
         typ, cond, direct, tk = x
+        optional = typ.endswith("?")
+        typ = typ.rstrip("?")
         found = None
         for y in sorted(r - used, key=str):
             if y[0] != typ:
@@ -461,6 +486,8 @@ def _edge_diff(e, r, section_end):
                 continue
             ytk = y[3]
             if tk[0] == "addr" and ytk[0] == "addr" and ytk[1] == tk[1]:
+                found = y
+            elif tk[0] == "addr-or-proxy" and ((ytk[0] == "addr" and ytk[1] == tk[1]) or ytk[0] == "proxy"):
                 found = y
             elif tk[0] == "addr-end" and ytk[0] == "addr" and ytk[1] == section_end.get(tk[1]):
                 found = y
@@ -471,7 +498,7 @@ def _edge_diff(e, r, section_end):
                 break
         if found:
             used.add(found)
-        else:
+        elif not optional:
             miss.add(x)
     spur = r - used
     # several expected 'anon' return edges may be satisfied by one proxy
